@@ -1209,7 +1209,7 @@ fn log_base() -> BoxedStrategy<Nat> {
 }
 
 fn ilog_case(cap_bits: usize) -> impl Strategy<Value = IlogCase> {
-    (log_base(), 0usize..400, 0u8..12, any::<u64>(), gen::nat(Prof::Small), 0u8..4, 0u8..40).prop_map(move |(base, e, dsel, s, free, neg, invalid)| {
+    (log_base(), 0usize..400, 0u8..16, any::<u64>(), gen::nat(Prof::Small), 0u8..4, 0u8..40).prop_map(move |(base, e, dsel, s, free, neg, invalid)| {
         // documented panics: x = 0, base 0 or 1
         if invalid < 3 {
             let (x, base) = match invalid {
@@ -1239,6 +1239,16 @@ fn ilog_case(cap_bits: usize) -> impl Strategy<Value = IlogCase> {
                 let span = &p * (&nb - BigUint::one());
                 let d = Nat(gen::expand(Nat::from_big(&span).trimmed_len().max(1), (s % 12) as u8, s)).big() % &span;
                 p + d
+            }
+            // a power plus a relatively small amount: p·(1 + 2^-k) and p + b^j (the estimate of the
+            // logarithm is then right at a power, where a word-sized guard decides)
+            12 | 13 => {
+                let k = 1 + (s % 70) as usize;
+                &p + (&p >> k) + BigUint::from(s & 1)
+            }
+            14 => {
+                let j = if e == 0 { 0 } else { (s as usize) % e };
+                &p + npow(&nb, j)
             }
             _ => nat_or_one(free).big(),
         };
@@ -1799,6 +1809,28 @@ fn main() {
     ck.sub("gcd_small", (22_000, 660_000), || gcd_case(Prof::Small, 12), gcd_big);
     ck.sub("gcd_medium", (7_000, 210_000), || gcd_case(Prof::Medium, 70), gcd_big);
     ck.sub("gcd_large", (300, 9_000), move || gcd_case(if th { Prof::Huge } else { Prof::Large }, big), gcd_big);
+    // the Lehmer double-word guesses start at 300 words: operand lengths on both sides of that size,
+    // with every small difference between the two word counts (the alignment of the leading words
+    // of the shorter operand is a case split on that difference), with and without a common factor
+    ck.sub(
+        "gcd_lehmer_dword",
+        (240, 7_000),
+        || {
+            let las: Vec<usize> = vec![298, 299, 300, 301, 302, 303, 310, 330, 364, 420];
+            (prop::sample::select(las), 0usize..6, 0u8..gen::N_PATTERNS, 0u8..gen::N_PATTERNS, any::<u64>(), any::<u64>(), 0u8..3, any::<bool>(), any::<bool>()).prop_map(|(la, gap, pa, pb, sa, sb, common, na, nb)| {
+                let lb = la - gap;
+                let (mut a, mut b) = (Nat(gen::expand(la, pa, sa)).big(), Nat(gen::expand(lb, pb, sb)).big());
+                if common > 0 {
+                    // a shared factor of one or three words (the operands grow by its length)
+                    let g = Nat(gen::expand(if common == 1 { 1 } else { 3 }, 1, sa ^ sb)).big();
+                    a *= &g;
+                    b *= &g;
+                }
+                GcdCase { a: mk_int(na, Nat::from_big(&a)), b: mk_int(nb, Nat::from_big(&b)), class: if common > 0 { 2 } else { 0 } }
+            })
+        },
+        gcd_big,
+    );
     ck.sub("gcd_prim", (12_000, 360_000), prim_gcd_case, prim_gcd);
 
     // ---- roots
